@@ -11,7 +11,12 @@ RULE = ("(A) Mech.tla: storage objects with an immutable flag, object->storage p
         "from-object / bits= / fromstring / mutate / tobitarray / mutate-held-buffer / set-option over 3 objects, 5-6 storages, 2 "
         "keys, cache capacity 1: with all disciplines on ImmutableConst, OnlyTargetChanges and PureConstruction hold; with any "
         "single discipline off TLC must find a violating history (negative controls, run every time - a control that passes is a "
-        "machinery failure). (C) seeded random programs over <= 8 live objects: objects from a small pool of literal strings "
+        "machinery failure). (B) behaviours of the mechanism model with every discipline on (MechSim.tla, "
+        "tlc -simulate, 1200 / 8000 histories of 10 steps with all action parameters) replayed on the real classes: construction "
+        "from two cache keys (a literal and a token string that reads options.mxfp_overflow) by constructor and fromstring, "
+        "Cls(src), Cls(bits=src), in-place changes, tobitarray() and changes of the returned bitarray, option changes - reverting "
+        "any of the repairs that correspond to a discipline (fromstring copy, tobitarray copy, cache key with options, _setbits "
+        "copy) makes TLC reject these behaviours. (C) seeded random programs over <= 8 live objects: objects from a small pool of literal strings "
         "(string-cache hits), from user-held bytearray/bitarray/array/memoryview buffers; derivations by constructor, bits=, "
         ".bits, copy, slices, + and radd with literals, & | ^ with self, *, join, pack with bits tokens, Dtype('bits').build/"
         "parse, shifts, ~, read, cut; mutations of either side by every mutator incl. prepend/append of pool literals onto empty "
@@ -57,6 +62,8 @@ def run(chk):
     chk.queue([isoprogs.derive_then_mutate_program(rng, lsb0=(i % 5 == 4)) for i in range(4000 if thorough else 1000)], 'derive-then-mutate')
     from harness import codecprogs
     chk.queue([codecprogs.value_history_program(rng) for _ in range(2000 if thorough else 400)], 'value-histories')
+    from . import common
+    common.run_mech_behaviours(chk, num=2000 if thorough else 300, procs=4)
     mech(chk, thorough)
     chk.flush()
     ext.result()
